@@ -377,8 +377,13 @@ LONG_STRINGS = (
     '-111111111', ' 111111111', '111111111 ', '1' * 5 + '.' + '1' * 5,
     # words: texts whose truth value is not their emptiness
     'false', 'FALSE', 'False', 'true', 'TRUE', 'fa', 'FACE', 'no', '0x1F',
+    # a line break is not a digit, wherever it stands
+    '101\n', '1011010110\n', '\n101', '17\n', 'FF\n', '1\n0', '101\r\n',
 )
-FRACTIONS = (0.5, 1.5, 10.1, 101.5, 0.1, 1.01, 111.111, 7.7, 1e-3)
+FRACTIONS = (0.5, 1.5, 10.1, 101.5, 0.1, 1.01, 111.111, 7.7, 1e-3,
+             # long digit strings with a small fraction
+             1234567012.25, 1010011.001, 1011010110.25, 1111111.5,
+             7654321.25, 1000000000.5)
 LONG_INTS = (11111111111, 10000000000, 77777777777, 1234567, 99999999999,
              -1, -10, -101, -1111111111, 2, 8, 9, 12, 18, 19, 102, 108)
 
